@@ -3,6 +3,7 @@ package h
 // Common harness R: one packet through the real middleware (DESIGN.md §3 "Common harness R").
 
 import (
+	warptypes "github.com/bcp-innovations/hyperlane-cosmos/x/warp/types"
 	"strings"
 
 	"cosmossdk.io/math"
@@ -73,6 +74,7 @@ type feeSpec struct {
 type Scenario struct {
 	rcvKind, denomKind, memoKind, route, intKind int
 	earlier                                      int // an earlier complete transfer over route earlier-1 (0: none)
+	hypSynthetic                                 bool
 	receiver                                     string
 	amountNaN                                    bool
 	A                                            math.Int
@@ -159,8 +161,17 @@ func drawScenario() *Scenario {
 		must(f.SetAttributes(&fwdtypes.CCTPAttributes{DestinationDomain: s.domain, MintRecipient: []byte{1, 2, 3}, DestinationCaller: caller}))
 	case routeHyp:
 		s.domain = uint32(verif.Choose("domain", 2) * 5)
+		maxFee := math.ZeroInt()
+		if verif.Bound("hypVariants") > 0 {
+			// a gas payment allowance in the transferred denomination (the bridge model quotes no payment), and a token
+			// that is the synthetic representation of ANOTHER denomination (which the orbiter account may happen to hold)
+			if verif.Bool("hyperlane-max-fee-given") {
+				maxFee = math.NewInt(3)
+			}
+			s.hypSynthetic = verif.Bool("hyperlane-token-is-synthetic-of-another-denom")
+		}
 		f = &core.Forwarding{ProtocolId: core.PROTOCOL_HYPERLANE, PassthroughPayload: pt}
-		must(f.SetAttributes(&fwdtypes.HypAttributes{TokenId: make([]byte, 32), DestinationDomain: s.domain, Recipient: make([]byte, 32), GasLimit: math.ZeroInt(), MaxFee: sdk.Coin{Denom: "uusdc", Amount: math.ZeroInt()}}))
+		must(f.SetAttributes(&fwdtypes.HypAttributes{TokenId: make([]byte, 32), DestinationDomain: s.domain, Recipient: make([]byte, 32), GasLimit: math.ZeroInt(), MaxFee: sdk.Coin{Denom: "uusdc", Amount: maxFee}}))
 	default:
 		s.intKind = verif.Choose("internal-recipient", verif.Bound("intKinds"))
 		rcpt := []string{user1.String(), feeR1.String(), modAddr(core.DustCollectorName).String(), core.ModuleAddress.String(), "noble1nope"}[s.intKind]
@@ -244,6 +255,9 @@ func (s *Scenario) apply(w *World, withPriors bool) {
 	if withPriors {
 		w.L.Set(core.ModuleAddress, nativeDenom, s.priorD)
 		w.L.Set(core.ModuleAddress, "uother", s.priorO)
+	}
+	if s.hypSynthetic {
+		w.Hyp.tokenType, w.Hyp.originDenom = warptypes.HYP_TOKEN_TYPE_SYNTHETIC, "uother"
 	}
 	if s.limit > 0 {
 		must(w.K.Adapter().SetParams(w.Ctx, adaptertypes.Params{MaxPassthroughPayloadSize: s.limit}))
